@@ -192,6 +192,18 @@ class Folder:
             return v
         if isinstance(e, ast.UnaryOp) and isinstance(e.op, ast.Not):
             return not self._e(modname, e.operand, env, cls, depth)
+        if isinstance(e, ast.Subscript) and isinstance(e.slice, ast.Slice):
+            sl = e.slice
+            part = lambda x: None if x is None else self._e(modname, x, env, cls, depth)
+            base = self._e(modname, e.value, env, cls, depth)
+            if not isinstance(base, (str, bytes, list, tuple)):
+                raise Unfoldable("slice of a non-sequence")
+            try:
+                return base[slice(part(sl.lower), part(sl.upper), part(sl.step))]
+            except Unfoldable:
+                raise
+            except Exception as ex:
+                raise Unfoldable(str(ex))
         if isinstance(e, ast.Subscript) and not isinstance(e.slice, ast.Slice):
             try:
                 return self._e(modname, e.value, env, cls, depth)[self._e(modname, e.slice, env, cls, depth)]
